@@ -172,3 +172,42 @@ Print Assumptions c16_skip_empty_example_hyps.
 Print Assumptions c16_skip_empty_example_kept.
 Print Assumptions c16_skip_empty_example_roundtrip.
 Print Assumptions c16_skip_empty_merge_edge.
+
+(* ---- a target that already holds data (a reader value recycled between messages): what a slice held before the
+   call influences the result only as a prefix; the appended elements are the ones a fresh target receives, so
+   fields the stream omits are zero in them whatever the previous message left behind (Proofs/RecycledP.v; the
+   harness hands the model recycled targets: slices cut back to length 0 after a first message) ---- *)
+From SbModel Require Import Proofs.UnmarshalP Proofs.RecycledP.
+
+Theorem c16_slice_target_appends : forall pf f o R t e nb old tk rest,
+  underlying t = TSlice e -> kind tk = KArray ->
+  unm pf f o R t (GList nb old) (tk :: rest) =
+  match unm pf f o R t (GList true []) (tk :: rest) with
+  | Ok (GList _ vs, rest') =>
+      Ok (GList (nb && match old ++ vs with [] => true | _ => false end) (old ++ vs), rest')
+  | Ok (v, rest') => Ok (v, rest')          (* unreachable: unm_slice_array_shape *)
+  | Err e => Err e
+  | OutOfFuel => OutOfFuel
+  end.
+Proof. exact unm_slice_appends. Qed.
+
+Theorem c16_slice_target_recycled : forall pf f o R t e tk rest,
+  underlying t = TSlice e -> kind tk = KArray ->
+  unm pf f o R t (GList false []) (tk :: rest) =
+  match unm pf f o R t (GList true []) (tk :: rest) with
+  | Ok (GList _ vs, rest') => Ok (GList false vs, rest')
+  | Ok (v, rest') => Ok (v, rest')          (* unreachable: unm_slice_array_shape *)
+  | Err e => Err e
+  | OutOfFuel => OutOfFuel
+  end.
+Proof. exact unm_slice_recycled. Qed.
+
+(* a Bytes token REPLACES what a byte slice held *)
+Theorem c16_bytes_token_replaces : forall pf f o R t cur tk s rest,
+  kind tk = KBytes -> val tk = VBytes s -> underlying t = TBytes ->
+  unm pf (S f) o R t cur (tk :: rest) = Ok (GBytes false s, rest).
+Proof. exact unm_bytes_token_replaces. Qed.
+
+Print Assumptions c16_slice_target_appends.
+Print Assumptions c16_slice_target_recycled.
+Print Assumptions c16_bytes_token_replaces.
